@@ -128,13 +128,15 @@ func parseToBigInt(s string) (*big.Int, error) {
 	if strings.ContainsAny(s, "Ee") {
 		// Given a floating-point value with an exponent, which technically isn't valid input, but we'll try to convert
 		// it anyway.
-		var f *big.Float
-		f, ok = new(big.Float).SetString(s)
-		if ok && !f.IsInt() {
+		var r *big.Rat
+		if !strings.Contains(s, "/") {
+			r, ok = new(big.Rat).SetString(s)
+		}
+		if ok && !r.IsInt() {
 			ok = false
 		}
 		if ok {
-			b, _ = f.Int(nil)
+			b = r.Num()
 		}
 	} else {
 		b, ok = new(big.Int).SetString(s, 0)
